@@ -144,6 +144,18 @@ CHECKS = {
           "exhaustive thorough. Only the robust stall shape (blocked in the receive statement holding the receive lock) is queried; the "
           "asleep-in-Condition.wait shape would be an artefact of cutting the background thread off."),
     technique="bounded model checking over schedules + deterministic replay of the counterexample schedule on real threads"),
+ "C01": dict(
+    category="other", design_ref="DESIGN.md section 4 (C01)",
+    text=("Caller role and callee role of a remote call are executed symbolically on the real code (netref __call__/syncreq/sync_request/"
+          "async_request/_async_request/_box/_send and serve/_dispatch/_dispatch_request/_unbox/_handle_call/AsyncResult) against a frame-level "
+          "peer, with symbolic Int/text/Bool leaves inside four argument shapes (positional, keyword, nested tuples mixing values and references), a "
+          "symbolic sequence number and three answer kinds: exactly one CALL request carrying the target and equal (values) / identical (references) "
+          "arguments, target run exactly once, answer returned/raised exactly. Call trees (nodes alternating between the peers, fan-out<=2, "
+          "depth<=2 quick/3 thorough, every combination of raising and catching nodes) are run on two real connections and compared with the same "
+          "tree evaluated in one process, including invocation order and mutation through reference arguments."),
+    note=("Trusted: z3, interpreter, identity codec and frame list standing in for brine/Channel (C04/C05). The call-tree obligation is exhaustive "
+          "enumeration with native execution -- there the solver decides nothing; deeper trees are argued by uniform re-entrancy, not proved."),
+    technique="symbolic execution of the Python AST for one hop (z3) + exhaustive differential execution of call trees on real connections"),
 }
 
 NOT_YET = {}
